@@ -163,6 +163,8 @@ def leanchecker(module):
 
 class Report:
     def __init__(self, pid, tier, seed, level):
+        if level not in ("exploration", "fault_enumeration", "model_checking", "proof", "translation_validation", "other"):
+            raise ValueError("invalid evidence level %r" % level)
         self.pid, self.tier, self.seed, self.level = pid, tier, seed, level
         self.t0 = time.time()
         self.cov = {}
